@@ -126,6 +126,19 @@ def run(ctx: Ctx) -> None:
             mock_dict = node.value
             break
     if mock_dict is None:
+        # the table may live at module level (`_MOCK = {...}`) or be built with dict(name=value)
+        for node in mock_mod.tree.body:
+            val = getattr(node, "value", None)
+            if isinstance(node, (ast.Assign, ast.AnnAssign)) and isinstance(val, ast.Dict) and val.keys and all(isinstance(k, ast.Constant) and isinstance(k.value, str) for k in val.keys) \
+                    and {k.value for k in val.keys} & {"int", "float", "len"}:
+                mock_dict = val
+                break
+    if mock_dict is None:
+        for node in ast.walk(mb.node):
+            if isinstance(node, ast.Call) and isinstance(node.func, ast.Name) and node.func.id == "dict" and node.keywords and not node.args:
+                mock_dict = ast.Dict(keys=[ast.Constant(value=k.arg) for k in node.keywords], values=[k.value for k in node.keywords])
+                break
+    if mock_dict is None:
         raise AnalysisError("mock_builtins: mock dict display not found")
     pairs = {k.value: dotted(v) for k, v in zip(mock_dict.keys, mock_dict.values)}
     ctx.check(all(k == v for k, v in pairs.items()) and set(pairs) >= {"int", "float", "len"}, "R-C21.2",
